@@ -692,7 +692,7 @@ def _refactoring_twins() -> None:
     import pathlib as _pl
 
     root = _pl.Path(__file__).resolve().parent.parent / "seeded"
-    for d in sorted([*root.glob("C??-rf-?"), *root.glob("C??-rg-?")]):
+    for d in sorted([*root.glob("C??-rf-?"), *root.glob("C??-rg-?"), *root.glob("C??-rh-?")]):
         mf = d / "meta.json"
         if not mf.exists() or not (d / "patch.diff").exists():
             continue
@@ -912,4 +912,8 @@ CASES["C09"] += [
 
 CASES["C12"] += [
     ("reintroduce F-45 (a global with a layout is transformed again)", "mutant", "snaxc/transforms/realize_memref_casts.py", "@revert:d2a57a7~1", "", ["C12.const-guards"]),
+]
+
+CASES["C12"] += [
+    ("reintroduce F-46 (constants re-laid-out into a layout with an offset)", "mutant", "snaxc/transforms/realize_memref_casts.py", "@revert:8ce5ce3~1", "", ["C12.const-guards"]),
 ]
